@@ -37,6 +37,7 @@ type listReply struct {
 	after         string        // serve this reply only once the response for this id has been uploaded
 	afterAttempts string        // serve this reply only once three upload attempts for this id have been made
 	delay         time.Duration // the long poll takes this long (virtual time: everything else has gone quiet by then)
+	settle        time.Duration // virtual time to let pass after the "after" condition holds
 }
 
 // fetchPlan says how the request endpoint answers for one request ID.
@@ -51,13 +52,14 @@ type fetchPlan struct {
 
 // backendPlan says how the backend answers one request (keyed by X-Tok).
 type backendPlan struct {
-	kind    string // "" ok, "connerr", "errafterheaders", "errafterbody", "slow"
-	status  int
-	header  http.Header
-	body    string
-	latency time.Duration
-	chunks  []string    // kind "lockstep"
-	trailer http.Header // undeclared trailers
+	kind     string // "" ok, "connerr", "errafterheaders", "errafterbody", "slow"
+	status   int
+	header   http.Header
+	body     string
+	latency  time.Duration
+	chunks   []string    // kind "lockstep"
+	trailer  http.Header // undeclared trailers
+	noLength bool        // the response has no Content-Length
 }
 
 type backendCall struct {
@@ -201,6 +203,9 @@ func (w *world) list(r *http.Request) (*http.Response, error) {
 	if l.after != "" {
 		vs.Wait("proxy: long poll until "+l.after+" is answered", unsafe.Pointer(w), func() bool { return w.uploadFor(l.after) != nil })
 	}
+	if l.settle > 0 && l.after != "" {
+		vtime.Sleep(l.settle)
+	}
 	if l.afterAttempts != "" {
 		vs.Wait("proxy: long poll until the upload for "+l.afterAttempts+" has failed", unsafe.Pointer(w), func() bool {
 			n := 0
@@ -302,8 +307,10 @@ func (w *world) upload(r *http.Request, id string) (*http.Response, error) {
 			}
 		}
 		if n == 1 {
-			// the first attempt: read everything, then fail
+			// the first attempt: read everything, take a moment (everything else that can happen meanwhile
+			// does), then fail
 			io.Copy(io.Discard, r.Body)
+			vtime.Sleep(20 * time.Millisecond)
 			if w.uploadFault[id] == "erronce" {
 				return nil, errors.New("scripted: connection reset by peer")
 			}
@@ -326,6 +333,23 @@ func (w *world) upload(r *http.Request, id string) (*http.Response, error) {
 	u.done = true
 	return resp(200, nil, nil, r), nil
 }
+
+type lateTrailerBody struct {
+	data    []byte
+	resp    *http.Response
+	trailer http.Header
+}
+
+func (b *lateTrailerBody) Read(p []byte) (int, error) {
+	if len(b.data) > 0 {
+		n := copy(p, b.data)
+		b.data = b.data[n:]
+		return n, nil
+	}
+	b.resp.Trailer = b.trailer
+	return 0, io.EOF
+}
+func (b *lateTrailerBody) Close() error { return nil }
 
 // lockBody is a backend response body in lock-step with the proxy: chunk i is only produced once the
 // proxy has seen chunk i-1 in the upload for the same request.
@@ -418,9 +442,10 @@ func (b backendRT) RoundTrip(r *http.Request) (*http.Response, error) {
 	}
 	if bp.trailer != nil {
 		// trailers the backend did not announce in a Trailer field (gRPC style)
-		rp := resp(status, hdr, []byte(payload), r)
+		// as net/http does it: the Trailer map only appears when the body has been read to its end
+		rp := resp(status, hdr, nil, r)
 		rp.ContentLength = -1
-		rp.Trailer = bp.trailer.Clone()
+		rp.Body = &lateTrailerBody{data: []byte(payload), resp: rp, trailer: bp.trailer.Clone()}
 		return rp, nil
 	}
 	switch bp.kind {
@@ -442,7 +467,12 @@ func (b backendRT) RoundTrip(r *http.Request) (*http.Response, error) {
 		rp.Body = &errBody{data: []byte(payload[:len(payload)/2]), err: errors.New("scripted: connection reset by peer")}
 		return rp, nil
 	}
-	return resp(status, hdr, []byte(payload), r), nil
+	rp := resp(status, hdr, []byte(payload), r)
+	if bp.noLength {
+		// a backend that streams: no Content-Length
+		rp.ContentLength = -1
+	}
+	return rp, nil
 }
 
 // ---- health endpoint ----
